@@ -1,6 +1,7 @@
 import Uft.Gen.Layout
 import Uft.Model.Mcount
 import Uft.Lemmas.Mcount
+import Uft.Lemmas.McountOverflow
 /-
 C02 — The recorded trace is exactly each thread's call history.
 Part 1: the record word. `Gen.Layout.packWord` is regenerated from
@@ -165,6 +166,30 @@ theorem c02_emit_prefix (cfg : Cfg) (hp : Plain cfg) (k : Kind) (cs : Calls) (f 
     rw [h1]; cases cs <;> simp [St.init, pending]
   simp only [e2, e3, hfr, hout]
   simp [pending, plainFrame, entryRec]
+
+/-- Calls deeper than --max-stack are dropped, never corrupted (-pg / -mfentry /
+    patched entries): for every forest of any depth, the written stream is
+    exactly the eager trace of the forest cut at `maxStack` open calls
+    (`evCallsB`): every call at depth < maxStack appears with its true depth,
+    address and time stamps, in order, and nothing else does — including all
+    calls made after the overflow. -/
+theorem c02_overflow_drop (cfg : Cfg) (hp : Plain cfg) (hdo : cfg.maxStack ≤ cfg.depthOpt) (cs : Calls)
+    (ht : cs.timed) (hmin : cfg.minSize = 0) (hen : cfg.enabled0 = true) :
+    (runCalls cfg .pg (St.init cfg) cs).out = evCallsB 0 cfg.maxStack cs := by
+  have hg : GoodW (St.init cfg) 0 := by
+    refine ⟨?_, trivial, fun _ => rfl, fun f hf => by simp [St.init] at hf⟩
+    constructor <;> simp [St.init, hmin, hen, NoSkip]
+  obtain ⟨h1, h2, _⟩ := over_calls cfg hp hdo cs (St.init cfg) 0 hg (Nat.zero_le _) ht
+  have hfr : (runCalls cfg .pg (St.init cfg) cs).frames = [] := by
+    simpa [St.init] using h2
+  simp only [eager, hfr, pending, List.append_nil] at h1
+  rw [h1]; simp [St.init, pending]
+
+/-- non-vacuity of `c02_overflow_drop`: recursion three deep with --max-stack 2 keeps
+    exactly the two outer levels -/
+example : evCallsB 0 2 (Calls.cons (.node 1 10 50 (.cons (.node 1 20 40 (.cons (.node 2 25 30 .nil) .nil)) .nil)) .nil)
+    = [⟨10, 0, 0, 1⟩, ⟨20, 0, 1, 1⟩, ⟨40, 1, 1, 1⟩, ⟨50, 1, 0, 1⟩] := by
+  decide
 
 /-- non-vacuity: a recursive tree of depth 3 meets the hypotheses -/
 example : (Calls.cons (.node 1 10 50 (.cons (.node 1 20 40 (.cons (.node 2 25 30 .nil) .nil)) .nil)) .nil).timed ∧
